@@ -3,7 +3,8 @@ import BioCantor.Proofs.VarKernel
 import BioCantor.Proofs.VarAlt
 namespace BioCantor.Proofs.Var
 open BioCantor BioCantor.Spec.Variants BioCantor.GenP
-open BioCantor.Model.Variants (Var altSeq1 altSeqN altTail kernel liftBlocks liftSingle lift1 reparent toChromosome Par slice)
+open BioCantor.Model.Variants (Var altSeq1 altSeqN altTail kernel liftBlocks liftSingle lift1 reparent toChromosome Par slice
+  Ver)
 
 /-! ### reading the haplotype at the image of a range -/
 
@@ -198,14 +199,15 @@ theorem imageBlock_id (ref : Seq) (v : Var) (b : Blk) (hv : v.s < v.e) (hvn : v.
     · exact newPos_before ref _ hx b.2 (by simp only [toEdit, Nat.sub_zero]; exact h') hbn
 
 /-- T3 for `VariantInterval.lift_over_location` on a whole chromosome and a single-block location the variant is
-    wholly inside of or wholly outside of: the answer is the block's image — and, AS CODED, an exception when the
-    image has no bases (F-C13b; the property wants the EmptyLocation there). -/
-theorem lift1_single_clean (ref : Seq) (v : Var) (b : Blk) (st : Strand) (hv : v.s < v.e) (hvn : v.e ≤ ref.length)
-    (hb : b.1 < b.2) (hbn : b.2 ≤ ref.length) (hc : Clean v b) :
-    lift1 false .whole ref v (.single b st) =
+    wholly inside of or wholly outside of, for every version of the text: the answer is the block's image; when the
+    image has no bases it is the EmptyLocation (the code as it is, since 82ac85b) — before that repair it was an
+    exception (F-C13b). -/
+theorem lift1_single_clean (ver : Ver) (ref : Seq) (v : Var) (b : Blk) (st : Strand) (hv : v.s < v.e)
+    (hvn : v.e ≤ ref.length) (hb : b.1 < b.2) (hbn : b.2 ≤ ref.length) (hc : Clean v b) :
+    lift1 ver .whole ref v (.single b st) =
       (match nonEmpty (imageBlock ref [toEdit 0 v] b) with
        | some ib => .ok (.single ib st)
-       | none => .error .EmptyLocation) := by
+       | none => if ver.emptyReturn then .ok .empty else .error .EmptyLocation) := by
   have halt := altSeq1_altOf 0 ref v (by simpa using hv) (by simpa using hvn)
   have hle : (imageBlock ref [toEdit 0 v] b).2 ≤ (altSeq1 0 ref v).length := by
     rw [halt]; exact newPos_le_altLen ref _ b.2 hbn
@@ -217,14 +219,33 @@ theorem lift1_single_clean (ref : Seq) (v : Var) (b : Blk) (st : Strand) (hv : v
     simp only [reparent, this, if_false, nonEmpty, hb, if_true, pure, Except.pure]
   · simp only [liftSingle, kernel_clean ref v b st hv hvn hb hbn hc, bind, Except.bind, pure, Except.pure]
     cases hne : nonEmpty (imageBlock ref [toEdit 0 v] b) with
-    | none => simp only [reparent, throw, throwThe, MonadExceptOf.throw]
+    | none =>
+      cases hver : ver.emptyReturn <;>
+        simp only [reparent, throw, throwThe, MonadExceptOf.throw, if_true, if_false, Bool.false_eq_true]
     | some ib =>
       have : ib = imageBlock ref [toEdit 0 v] b := by
         unfold nonEmpty at hne; split at hne
         · exact (Option.some.inj hne).symm
         · exact absurd hne (by simp)
       have hgt : ¬ (ib.2 > (altSeq1 0 ref v).length) := by rw [this]; omega
-      simp only [reparent, hgt, if_false, pure, Except.pure]
+      cases hver : ver.emptyReturn <;> simp only [reparent, hgt, if_false, pure, Except.pure]
+
+/-- "locations deleted entirely become empty": a single-block location lying wholly inside the deleted part
+    `[s + |alt|, e)` of a length-reducing variant is lifted to the EmptyLocation by the code as it is
+    (any version that returns the EmptyLocation as it is). -/
+theorem lift1_single_deleted (ver : Ver) (hver : ver.emptyReturn = true) (ref : Seq) (v : Var) (b : Blk) (st : Strand)
+    (hv : v.s < v.e) (hb : b.1 < b.2) (hd : v.alt.length < v.e - v.s)
+    (h1 : v.s + v.alt.length ≤ b.1) (h2 : b.2 ≤ v.e) :
+    lift1 ver .whole ref v (.single b st) = .ok .empty := by
+  have hk : kernel v b st = .ok none := by
+    unfold kernel
+    have := k_in_deleted ⟨v.s, v.e, v.alt.length⟩ ⟨b.1, b.2, st⟩ ⟨by simp, by simp only; omega, by simp⟩
+      ⟨by simp, by simp only; omega⟩ (by unfold delta; simp only; omega) (by simp only; omega) (by simp only; omega)
+    unfold liftK at this
+    rw [this]; rfl
+  have hcond : ¬ (v.e - v.s = v.alt.length ∨ b.2 ≤ v.s) := by omega
+  simp only [lift1, toChromosome, Model.locEnd, Par.off, bind, Except.bind, pure, Except.pure, hcond, if_false,
+    liftSingle, hk, hver]
 
 /-- the answer of T3b passes the specification's checker `okLift` (strand, normalised blocks, bases read) -/
 theorem lift1_single_verdict (ref : Seq) (v : Var) (b ib : Blk) (st : Strand) (hst : st ≠ .unstranded)
@@ -271,16 +292,19 @@ theorem kernel_same_length (u : Var) (b : Blk) (st : Strand) (hu : (u.alt.length
   simp only [pure, Except.pure, Int.toNat_natCast]
 
 /-- T5 (positive part): if every variant before the last keeps the length, the sequential application coded in
-    `VariantIntervalCollection.lift_over_location` is the application of the last variant alone. -/
-theorem liftSeqSingle_prefix (pre : List Var) (v : Var) (b : Blk) (st : Strand) (hb : b.1 ≤ b.2)
+    `VariantIntervalCollection.lift_over_location` (the loop as it is now, with its early exit) is the application of
+    the last variant alone. -/
+theorem liftSeqSingleStop_prefix (pre : List Var) (v : Var) (b : Blk) (st : Strand) (hb : b.1 ≤ b.2)
     (hpre : ∀ u ∈ pre, (u.alt.length : Int) - ((u.e : Int) - (u.s : Int)) = 0) :
-    Model.Variants.liftSeqSingle (pre ++ [v]) (.single b st) = liftSingle v (.single b st) := by
+    Model.Variants.liftSeqSingleStop (pre ++ [v]) (.single b st) = liftSingle v (.single b st) := by
   induction pre with
   | nil =>
-    simp only [List.nil_append, Model.Variants.liftSeqSingle, bind, Except.bind]
-    cases liftSingle v (.single b st) <;> rfl
+    simp only [List.nil_append, Model.Variants.liftSeqSingleStop, bind, Except.bind]
+    cases liftSingle v (.single b st) with
+    | error e => rfl
+    | ok l => cases l <;> rfl
   | cons u r ih =>
-    simp only [List.cons_append, Model.Variants.liftSeqSingle, liftSingle,
+    simp only [List.cons_append, Model.Variants.liftSeqSingleStop, liftSingle,
       kernel_same_length u b st (hpre u (by simp)) hb, bind, Except.bind, pure, Except.pure]
     exact ih (fun w hw => hpre w (List.mem_cons_of_mem _ hw))
 
